@@ -769,15 +769,15 @@ Proof. intros Hs HA r Hr. destruct (Hs r Hr) as (r1 & H1 & _ & Ec & _). rewrite 
 Lemma PendIn_shrinks L F F' : shrinks F F' -> PendIn L F -> PendIn L F'.
 Proof. intros Hs HA r Hr Hp. destruct (Hs r Hr) as (r1 & H1 & _ & Ec & _ & Y). rewrite Ec. auto. Qed.
 
-Lemma do_def_off legacy started rt c f decl d s :
-  do_def all_off legacy started rt c f decl d s =
+Lemma do_def_off legacy started rt stk c f decl d s :
+  do_def all_off legacy started rt stk c f decl d s =
   let g := s_next s in
   let pend := negb legacy && negb started in
-  let nr := mk_frec c f g (eff_sr legacy d) (nodupN decl) [] true true pend (s_inc s c) c in
+  let nr := mk_frec c f g (eff_sr legacy d) (nodupN decl) [] true true pend (s_inc s c) c stk in
   let s1 := set_funcs (set_next s (g + 1)) (s_funcs s ++ [nr]) in
   let s2 := if pend then s1 else commit false s1 nr in
   match find_bound (set_next s (g + 1)) c f with Some r => unbind all_off legacy s2 r | None => s2 end.
-Proof. unfold do_def. cbn [all_off d_no_alias d_alias_abort d_dup_set d_rt_owner]. destruct legacy, started, rt; reflexivity. Qed.
+Proof. unfold do_def. cbn [all_off d_no_alias d_alias_abort d_dup_set d_rt_owner d_stack_rollback]. unfold commit_new. cbn [all_off d_stack_rollback andb]. destruct legacy, started, rt, stk; reflexivity. Qed.
 
 Lemma find_bound_in s c f r : find_bound s c f = Some r -> In r (s_funcs s) /\ f_ctx r = c.
 Proof.
@@ -786,13 +786,13 @@ Proof.
 Qed.
 
 (* immediate registration: legacy, or new subsystem in a started context *)
-Lemma winv_do_def_imm legacy started rt c f decl d s L :
+Lemma winv_do_def_imm legacy started rt stk c f decl d s L :
   negb legacy && negb started = false -> WInv s -> NoPend (s_funcs s) -> AllCtx L (s_funcs s) -> In c L ->
-  let s' := do_def all_off legacy started rt c f decl d s in
+  let s' := do_def all_off legacy started rt stk c f decl d s in
   WInv s' /\ NoPend (s_funcs s') /\ AllCtx L (s_funcs s') /\ s_files s' = s_files s /\ s_next s <= s_next s'.
 Proof.
   intros Hmode (HC & HF) HNP HA HcL. rewrite do_def_off. cbn zeta. rewrite Hmode.
-  set (g := s_next s). set (nr := mk_frec c f g (eff_sr legacy d) (nodupN decl) [] true true false (s_inc s c) c).
+  set (g := s_next s). set (nr := mk_frec c f g (eff_sr legacy d) (nodupN decl) [] true true false (s_inc s c) c stk).
   set (F := s_funcs s). set (s1 := set_funcs (set_next s (g + 1)) (F ++ [nr])).
   assert (HC1 : Core s1) by (apply core_append; [assumption|reflexivity|reflexivity]).
   assert (Hnr1 : In nr (s_funcs s1)) by (cbn; apply in_or_app; right; left; reflexivity).
@@ -827,13 +827,13 @@ Proof.
 Qed.
 
 (* new subsystem while the file is still loading: the manager waits for ctx.start() *)
-Lemma winv_do_def_pend rt c f decl d s L Lp :
+Lemma winv_do_def_pend rt stk c f decl d s L Lp :
   WInv s -> K (s_funcs s) -> AllCtx L (s_funcs s) -> PendIn Lp (s_funcs s) -> In c L -> In c Lp ->
-  let s' := do_def all_off false false rt c f decl d s in
+  let s' := do_def all_off false false rt stk c f decl d s in
   WInv s' /\ K (s_funcs s') /\ AllCtx L (s_funcs s') /\ PendIn Lp (s_funcs s') /\ s_files s' = s_files s /\ s_next s <= s_next s'.
 Proof.
   intros (HC & HF) HK HA HP HcL HcLp. rewrite do_def_off. cbn zeta. cbn [negb andb].
-  set (g := s_next s). set (nr := mk_frec c f g (eff_sr false d) (nodupN decl) [] true true true (s_inc s c) c).
+  set (g := s_next s). set (nr := mk_frec c f g (eff_sr false d) (nodupN decl) [] true true true (s_inc s c) c stk).
   set (F := s_funcs s). set (s1 := set_funcs (set_next s (g + 1)) (F ++ [nr])).
   assert (HC1 : Core s1) by (apply core_append; [assumption|reflexivity|reflexivity]).
   assert (HF1 : Flags s1).
@@ -876,7 +876,8 @@ Proof.
   - split; [assumption|]. split; [assumption|]. split; [assumption|]. split; [reflexivity|lia].
   - assert (Hstep : let s1 := run_stmt all_off legacy started c s x in
               WInv s1 /\ NoPend (s_funcs s1) /\ AllCtx L (s_funcs s1) /\ s_files s1 = s_files s /\ s_next s <= s_next s1).
-    { destruct x as [f decl d|f decl d|f]; cbn [run_stmt].
+    { destruct x as [f decl d|f decl d|f decl d|f]; cbn [run_stmt].
+      - apply winv_do_def_imm; assumption.
       - apply winv_do_def_imm; assumption.
       - apply winv_do_def_imm; assumption.
       - destruct (winv_do_del legacy c f s HW (fun _ => HNP)) as (A & B & C & D).
@@ -897,7 +898,8 @@ Proof.
   - split; [assumption|]. split; [assumption|]. split; [assumption|]. split; [assumption|]. split; [reflexivity|lia].
   - assert (Hstep : let s1 := run_stmt all_off false false c s x in
               WInv s1 /\ K (s_funcs s1) /\ AllCtx L (s_funcs s1) /\ PendIn Lp (s_funcs s1) /\ s_files s1 = s_files s /\ s_next s <= s_next s1).
-    { destruct x as [f decl d|f decl d|f]; cbn [run_stmt].
+    { destruct x as [f decl d|f decl d|f decl d|f]; cbn [run_stmt].
+      - apply winv_do_def_pend; assumption.
       - apply winv_do_def_pend; assumption.
       - apply winv_do_def_pend; assumption.
       - destruct (winv_do_del false c f s HW) as (A & B & C & D); [discriminate|].
@@ -1047,7 +1049,7 @@ Definition started_rel (todo : list gen) (F F' : list frec) : Prop :=
 Lemma winv_start_loop c todo : forall s, WInv s -> StronglySorted N.lt todo ->
   (forall g, In g todo -> exists r, In r (s_funcs s) /\ f_gen r = g /\ f_ctx r = c /\ f_pending r = true) ->
   (forall r, In r (s_funcs s) -> f_ctx r = c -> f_held r <> [] -> forall g, In g todo -> f_gen r < g) ->
-  let s' := fold_left start_one todo s in
+  let s' := fold_left (start_one all_off) todo s in
   WInv s' /\ started_rel todo (s_funcs s) (s_funcs s') /\ s_files s' = s_files s /\ s_next s' = s_next s.
 Proof.
   induction todo as [|g todo IH]; intros s HW Hs Hex Hord; cbn [fold_left].
@@ -1058,7 +1060,7 @@ Proof.
     pose proof (core_nodup s HC) as Hnd.
     assert (Hh : f_held r = []) by (destruct (HF r Hr) as (A & _); apply A; assumption).
     assert (Hb : f_bound r = true) by (destruct (HF r Hr) as (A & _); apply A; assumption).
-    assert (Hso : start_one s g = commit false s r) by (unfold start_one; rewrite (find_gen _ g r Hnd Hr Eg), Ep; reflexivity).
+    assert (Hso : start_one all_off s g = commit false s r) by (unfold start_one; rewrite (find_gen _ g r Hnd Hr Eg), Ep; reflexivity).
     rewrite Hso.
     assert (Eown : f_own r = f_ctx r) by (apply (HF r Hr)).
     destruct (core_commit s r HC Hr Hh Eown) as (HC1 & Ef1 & Efi1 & En1).
@@ -1092,7 +1094,7 @@ Proof.
       * intros _. right. left. symmetry; assumption.
 Qed.
 
-Lemma start_ctx_off oracle s c : start_ctx all_off oracle s c = fold_left start_one (pending_gens s c) s.
+Lemma start_ctx_off oracle s c : start_ctx all_off oracle s c = fold_left (start_one all_off) (pending_gens s c) s.
 Proof. reflexivity. Qed.
 
 Lemma winv_start_ctx oracle s c L Lp : WInv s -> K (s_funcs s) -> AllCtx L (s_funcs s) -> PendIn (c :: Lp) (s_funcs s) ->
@@ -1317,6 +1319,7 @@ Proof.
     + destruct (bodies_pend L2 (s_files s2) s2) as (A & B & C & D & E); auto.
       { apply NoPend_K; assumption. } { apply NoPend_PendIn; assumption. }
       set (s3 := fold_left (fun s p => run_body all_off false false (fst p) (snd p) (set_inc s (fst p) (s_next s))) (s_files s2) s2) in *.
+      change (start_all all_off oracle s3 (map fst (s_files s3))) with (fold_left (start_ctx all_off oracle) (map fst (s_files s3)) s3).
       destruct (starts_all oracle L2 (map fst (s_files s3)) s3 A B C) as (A' & B' & C' & D').
       { rewrite E. exact D. }
       apply sinv_prune_gc; [assumption|assumption|].
@@ -1467,15 +1470,15 @@ Proof.
   cbn zeta. set (s := run_ops all_off legacy ops init_st). intros Hl.
   destruct (sinv_run_ops legacy ops init_st sinv_init) as ((HC & HF) & HNP & HB & HA). fold s in HC, HF, HNP, HB, HA.
   unfold run_op. rewrite Hl. unfold run_body. cbn [fold_left run_stmt].
-  assert (HWd : WInv (do_def all_off legacy true false c f decl d s)).
-  { apply (winv_do_def_imm legacy true false c f decl d s (map fst (s_files s))); auto.
+  assert (HWd : WInv (do_def all_off legacy true false false c f decl d s)).
+  { apply (winv_do_def_imm legacy true false false c f decl d s (map fst (s_files s))); auto.
     - destruct legacy; reflexivity.
     - split; assumption.
     - apply loaded_In; assumption. }
   rewrite (gc_off legacy _ (proj2 HWd)). clear HWd.
   rewrite do_def_off. cbn zeta.
   replace (negb legacy && negb true) with false by (destruct legacy; reflexivity).
-  set (g := s_next s). set (nr := mk_frec c f g (eff_sr legacy d) (nodupN decl) [] true true false (s_inc s c) c).
+  set (g := s_next s). set (nr := mk_frec c f g (eff_sr legacy d) (nodupN decl) [] true true false (s_inc s c) c false).
   set (s1 := set_funcs (set_next s (g + 1)) (s_funcs s ++ [nr])).
   set (held := filter (okf s c) (nodupN decl)).
   assert (Hokf : forall k, okf s1 c k = okf s c k) by reflexivity.
